@@ -190,6 +190,17 @@ class CFG:
                 outs += self._build(case.body, [(subj, "case")])
             outs.append((subj, "nomatch"))
             return outs
+        if isinstance(st, ast.Assert):
+            # assert c  ==  if not c: raise AssertionError   (what follows is guarded by c)
+            t = self._new("test", st.test, st)
+            self.node_of_stmt[st] = t
+            self._connect(preds, t)
+            if self._handler_stack:
+                for h in self._handler_stack[-1]:
+                    self._edge(t, h, "F")
+            else:
+                self._edge(t, self.raise_exit, "F")
+            return [(t, "T")]
         # simple statements
         n = self._new("stmt", st)
         self.node_of_stmt[st] = n
